@@ -197,12 +197,9 @@ func (db *GoBadgerDB) Iterator(start, end []byte, reverse bool) Iterator {
 	if bytes.Equal(end, types.EmptyValue) {
 		end = nil
 	}
-	if reverse {
-		it.Seek(end)
-	} else {
-		it.Seek(start)
-	}
-	return &goBadgerDBIt{it, itBase{start, end, reverse}, txn, nil}
+	dbit := &goBadgerDBIt{it, itBase{start, end, reverse}, txn, nil}
+	dbit.Rewind()
+	return dbit
 }
 
 type goBadgerDBIt struct {
@@ -221,9 +218,14 @@ func (it *goBadgerDBIt) Next() bool {
 // Rewind ...
 func (it *goBadgerDBIt) Rewind() bool {
 	if it.reverse {
-		it.Seek(it.end)
+		it.Iterator.Seek(it.end)
+		// the upper bound is exclusive (as for leveldb and memdb): a reverse seek lands
+		// on the bound itself when that key is stored, step over it
+		if it.end != nil && it.Iterator.Valid() && bytes.Equal(it.Key(), it.end) {
+			it.Iterator.Next()
+		}
 	} else {
-		it.Seek(it.start)
+		it.Iterator.Seek(it.start)
 	}
 	return it.Valid()
 }
@@ -242,7 +244,16 @@ func (it *goBadgerDBIt) Close() {
 
 // Valid 是否合法
 func (it *goBadgerDBIt) Valid() bool {
-	return it.Iterator.Valid() && it.checkKey(it.Key())
+	if !it.Iterator.Valid() {
+		return false
+	}
+	key := it.Key()
+	// the range is [start, end): a key equal to the upper bound (for a prefix
+	// iterator the first key after the prefix) is outside, as for leveldb and memdb
+	if it.end != nil && bytes.Equal(key, it.end) {
+		return false
+	}
+	return it.checkKey(key)
 }
 
 func (it *goBadgerDBIt) Key() []byte {
